@@ -85,18 +85,17 @@ ASSUMPTIONS = [
     'command-line tokens are plain words (no leading dash, no backslash) so that /bin/echo prints '
     'them verbatim',
 ]
-BUDGET = {'quick': {'cases': 4000, 'shards': 16, 'seconds': 150, 'shrink_s': 30},
+BUDGET = {'quick': {'cases': 4000, 'shards': 16, 'seconds': 150, 'shrink_s': 20},
           'thorough': {'cases': 160000, 'shards': 16, 'seconds': 840, 'shrink_s': 45}}
 # fractions of generated cases showing the class at least once; about half of what the quick tier measures
-FLOORS = {'nt-name-collision': 0.15, 'nt-job-closure-with-repeated-names': 0.04, 'use-stacked': 0.07,
-          'use-executed-kw': 0.15, 'use-executed-mixed': 0.05, 'make-executed': 0.18,
-          'stats-executed-task': 0.04, 'stats-executed-test': 0.03, 'stats-executed-bylabels': 0.03,
+FLOORS = {'nt-name-collision': 0.15, 'nt-job-closure-with-repeated-names': 0.03, 'req-use-stacked': 0.08,
+          'req-use-kw': 0.15, 'req-use-mixed': 0.05, 'req-use-soft': 0.1, 'req-make-named': 0.1,
+          'req-make-unnamed': 0.1, 'req-stats-task': 0.03, 'req-stats-test': 0.03, 'req-stats-bylabels': 0.03,
           'pair-function': 0.08, 'pair-key': 0.02, 'pair-kwarg': 0.012, 'pair-task': 0.12,
-          'pair-make-named-arguments': 0.03, 'pair-make-unnamed-deps': 0.02, 'pair-stats-tasks': 0.02,
-          'job-graph-duplicate-name-in-closure': 0.04, 'job-graph-duplicate-name-outside-closure': 0.025,
-          'job-hist-closure-larger-than-roots': 0.1, 'userun-pipeline-posts=1': 0.015, 'map': 0.05,
-          'use-identical-request-repeated': 0.12, 'make-identical-request-repeated': 0.03,
-          'rebuild': 0.03}
+          'pair-make-named-arguments': 0.03, 'pair-make-unnamed-deps': 0.015, 'pair-stats-tasks': 0.012,
+          'job-graph-duplicate-name-in-closure': 0.025, 'job-graph-duplicate-name-outside-closure': 0.025,
+          'req-userun-posts=1': 0.012, 'req-map': 0.05, 'req-use-identical-repeated': 0.1,
+          'req-make-identical-repeated': 0.025, 'req-rebuild': 0.03}
 
 NAMES = ['t0', 't1', 't2', 't3']
 KWARGS = ['kw0', 'kw1']
@@ -138,6 +137,10 @@ _FACTORY = st.fixed_dictionaries({
     'op': st.just('factory'), 'from_task': st.sampled_from([False, False, True]),
     'name': st.sampled_from(FACTORY_NAMES), 'dargs': st.integers(0, 3), 't': st.integers(0, 3),
     'deps': _SOME_TASKS, 'soft': _SOME_TASKS})
+_FACTORY0 = st.fixed_dictionaries({
+    'op': st.just('factory'), 'from_task': st.sampled_from([False, False, False, True]),
+    'name': st.sampled_from(['echo', 'echo', None]), 'dargs': st.sampled_from([0, 0, 1, 2, 3, 3]),
+    't': st.integers(0, 1), 'deps': st.just([]), 'soft': st.just([])})
 _COPY = st.fixed_dictionaries({'op': st.just('copy'), 'f': _POOL})
 _MAKEOP = st.fixed_dictionaries(dict(_MAKE, op=st.just('make'), f=_POOL, deps=_SOME_TASKS, soft=_SOME_TASKS))
 _USERUN = st.fixed_dictionaries({'op': st.just('userun'), 'f': _POOL})
@@ -204,7 +207,7 @@ def _case(draw, max_ops):
     base = draw(_BASE_ANY if draw(_DICE) >= 8 else _BASE_UNIQUE)
     mix = draw(_MIX)
     ops = draw(st.lists(_OP[mix], min_size=1 if mix == 'wide' else 2, max_size=max_ops))
-    return {'kind': 'hist', 'base': base, 'ops': ops, 'job': draw(_JOBSEL)}
+    return {'kind': 'hist', 'base': base, 'factory0': draw(_FACTORY0), 'ops': ops, 'job': draw(_JOBSEL)}
 
 
 def strategy(tier):
@@ -283,8 +286,10 @@ class _World:
         self.tmp = None
         self._config = None
         self.names = {}       # observed task name -> set of 'diff' keys
+        self.predicted = {}   # name under the documented scheme -> set of 'diff' keys
         self.labels = set()
         self.step = 0
+        self.factory0 = None
 
     # ---- plumbing
     def fail(self, clause, signature, detail):
@@ -411,6 +416,16 @@ class _World:
         seen = self.names.setdefault(self.tname(uid), set())
         seen.add((kind, diff))
         if len(seen) > 1:
+            self.labels.add(f'observed-one-name-two-requests-{kind}')
+
+    def predict(self, kind, name, diff):
+        """Non-triviality: the name the documented scheme gives to this request (anchors of the
+        property: sorted hard-dependency names + '.' + function name; requested or hashed name +
+        '.' + factory name) is also the name of a different request of this history.  Computed
+        from the requests alone, before the code under test is called."""
+        seen = self.predicted.setdefault(name, set())
+        seen.add((kind, diff))
+        if len(seen) > 1:
             self.out.nontrivial = True
             self.labels.add('nt-name-collision')
             self.labels.add(f'collision-{kind}')
@@ -472,6 +487,16 @@ class _World:
         feature = 'soft' if wmod['soft'] else 'hard'
         same = ident + (wmod['ser'],)
         self.note_pairs(wmod, named, fname)
+        injected = list(wmod['pos']) + list(wmod['kw'].values())
+        hard_names = [] if wmod['soft'] else sorted({self.tname(u) for u, _ in injected})
+        self.predict('use', 'use:' + ','.join(hard_names) + '.' + fname, named)
+        shape = ('mixed' if wmod['pos'] and wmod['kw'] else 'kw' if wmod['kw'] else 'pos')
+        self.labels.add(f'req-use-{shape}')
+        self.labels.add(f'req-use-{feature}')
+        if len(injected) > 1:
+            self.labels.add('req-use-stacked')
+        if any(r['kind'] == 'use' and r['same'] == same for r in self.reqs):
+            self.labels.add('req-use-identical-repeated')
         try:
             task = getter()
         except Exception as exc:   # the property allows an explicit error for a conflicting request
@@ -486,7 +511,6 @@ class _World:
         verdict = self.judge('use', same, named, task, 'use', feature)
         if verdict is None:
             return None
-        injected = list(wmod['pos']) + list(wmod['kw'].values())
         if verdict == 'new':
             uid = self.add_live(task, None, 'use')
             first = True
@@ -509,7 +533,6 @@ class _World:
         expected = self.funcs[wmod['fn']](
             *[self.value(u, k) for u, k in reversed(wmod['pos'])],
             **{a: self.value(u, k) for a, (u, k) in wmod['kw'].items()})
-        shape = ('mixed' if wmod['pos'] and wmod['kw'] else 'kw' if wmod['kw'] else 'pos')
         try:
             env_up, status = task.do(env=env, config=self.config())
             result = env_up[task.name]['result']
@@ -542,8 +565,8 @@ class _World:
         return self.factories[-1]
 
     def default_factory(self):
-        if not self.factories:
-            self.op_factory({'from_task': False, 'name': 'echo', 'dargs': 0, 't': 0, 'deps': [], 'soft': []})
+        if not self.factories:     # the first factory of a history is part of the case
+            self.op_factory(self.factory0)
         return self.factories
 
     def make_keys(self, fidx, opn):
@@ -581,6 +604,13 @@ class _World:
         for req in self.reqs:
             if req['kind'] == 'make' and req['diff'] != diff and req['conflict'] == conflict:
                 self.labels.add('pair-make-' + feature + '-' + _differ(req, 'make', diff).split(',')[0])
+        fmod = self.factories[fidx]
+        fident = fmod['name'] or repr((fmod['exe'], fmod['dargs'], fmod['from']))
+        given = opn['name'] or repr((list(opn['extra'] or []), sorted(dict(fmod['fkw'], **opn['kw']).items())))
+        self.predict('make', f'make:{given}.{fident}', diff)
+        self.labels.add(f'req-make-{feature}')
+        if any(r['kind'] == 'make' and r['same'] == same for r in self.reqs):
+            self.labels.add('req-make-identical-repeated')
         try:
             task = getter()
         except Exception as exc:
@@ -610,7 +640,6 @@ class _World:
         self.check_deps(task, hard, soft, 'make', feature)
         if verdict != 'new':
             return uid
-        fmod = self.factories[fidx]
         env = self.env_for([fmod['from']] if fmod['from'] is not None else [])
         try:
             env_up, status = task.do(env=env, config=self.config())
@@ -685,7 +714,7 @@ class _World:
             use = Use.from_func(func=use, task=self.task(uid), key=key, kwarg=kwarg,
                                 deps_type='soft' if wmod['soft'] else 'hard', serialize=wmod['ser'])
         new = self.new_wrapper(use, wmod['fn'], list(wmod['pos']), dict(wmod['kw']), wmod['soft'], wmod['ser'])
-        self.labels.add('rebuild-kw-reordered' if len(wmod['kw']) > 1 else 'rebuild')
+        self.labels.add('req-rebuild-kw-reordered' if len(wmod['kw']) > 1 else 'req-rebuild')
         self.use_request(new, use.get_task)
 
     def op_map(self, opn):
@@ -694,6 +723,7 @@ class _World:
         wmod = self.wrappers[-1 - opn['w'] % len(self.wrappers)]
         # map() asks the wrapper for its task, then wraps the new function around it
         holder = {}
+        self.labels.add('req-map')
 
         def mapped():
             holder['use'] = wmod['use'].map(self.funcs[opn['fn']])
@@ -768,6 +798,7 @@ class _World:
         _same, diff, conflict, _cli, _hard, _soft = self.make_keys(fidx, opn)
         kwargs = self.make_kwargs(opn)
         feature = f'posts={min(len(posts), 2)}'
+        self.labels.add('req-userun-' + feature)
         try:
             use = umod['obj'](kwarg=opn['kwarg'], **kwargs)(self.funcs[opn['fn']])
             final = use.get_task()
@@ -844,6 +875,8 @@ class _World:
         for req in self.reqs:
             if req['kind'] == 'stats' and req['conflict'] == name and req['diff'] != diff:
                 self.labels.add('pair-stats-' + _differ(req, 'stats', diff).split(',')[0])
+        self.predict('stats', f'use:.{name}.stats', diff)
+        self.labels.add(f'req-stats-{kind}')
         try:
             evalt = func(**kwargs)
         except Exception as exc:
@@ -897,6 +930,8 @@ class _World:
         self.labels.add(f'stats-executed-{kind}')
 
     def run(self, case):
+        self.factory0 = case.get('factory0') or {'from_task': False, 'name': 'echo', 'dargs': 0, 't': 0,
+                                                 'deps': [], 'soft': []}
         for nidx in case['base']:
             task = PythonTask(NAMES[nidx], _noop)
             uid = self.add_live(task, None, 'base')
